@@ -76,13 +76,14 @@ CHECKS = {
             "Every PatchTree.sort call is observed through a hook asserting a pure permutation (children stay with their parent); for generated ordering rulebooks with disjoint "
             "sibling languages the order of sibling commands in real patches and in order_config output is compared pairwise with the reference rank; order_config is checked to be "
             "an idempotent permutation that keeps unmentioned rows in place; on the fixture corpus with the shipped *.order files, deleting an unrelated top-level row must not "
-            "change the relative order of the remaining commands.",
+            "change the relative order of the remaining commands, and two lines created in one order are removed in the opposite order when ranked differently (mirror law).",
             "Trusted: R6 (vf/ref/order.py), R1, R2. Removal = row starts with the negation word. Ties inside one rank are not judged. Two known findings listed.", "4/C08"),
     "C09": ("relational monitor between three real views of one patch (shown text, cmd_paths, CommandList sent) + session-wrapper rules + reference deploy-rule chain R7 + production job composition",
             "For PatchTrees produced by the real make_patch, synthetic ones and the fixture corpus, across block-structured vendors, hardware families and the four (commit, finalize) "
             "settings, the run observes formatter.patch, formatter.cmd_paths and apply_deploy_rulebook and requires line-by-line agreement (order, depth, block exits), a contiguous body, "
             "a wrapper obeying the session rules, and per-command timeout/dialogs equal to the matching rule chain of generated deploy rulebooks; CliDeployerJob.parse_result is driven "
-            "with a harness driver to check that what it shows is what it sends.",
+            "with a harness driver to check that what it shows is what it sends; with %context sections every command must carry the context of the rulebook section its "
+            "governing rule is written in (an exit row: one that a command of its own block carries).",
             "Trusted: R7 (vf/ref/deploy.py), the wrapper rule table. Trees with duplicate sibling rows are outside the stated domain (counted, not judged).", "4/C09"),
     "C10": ("reference interpreter of generator programs + R3 coverage/exclusivity oracle vs real PartialGenerator classes run through the production front end",
             "Generator programs (data) are executed by real dynamically created PartialGenerator subclasses (real block/block_if/multiblock API, tuple and multi-line yields) "
